@@ -25,16 +25,17 @@ pub fn install() {
             };
             let injected = info.payload().downcast_ref::<crate::track::fault::Injected>().is_some() || info.payload().downcast_ref::<crate::track::HazardAbort>().is_some();
             let raw_loc = info.location().map(|l| l.file().to_string()).unwrap_or_default();
-            if !injected && !raw_loc.starts_with("/repo/") && !raw_loc.starts_with("/rustc/") && !raw_loc.contains(".cargo/registry") {
+            let repo = format!("{}/", crate::check::repo_dir());
+            if !injected && !raw_loc.starts_with(&repo) && !raw_loc.starts_with("/rustc/") && !raw_loc.contains(".cargo/registry") {
                 // not the crate under test: a bug in the harness itself must never be silent
                 eprintln!("HARNESS PANIC: {} @ {}:{}", msg, raw_loc, info.location().map(|l| l.line()).unwrap_or(0));
             }
-            if (msg.contains("null pointer dereference occurred") || msg.contains("misaligned pointer dereference")) && raw_loc.starts_with("/repo/") {
+            if (msg.contains("null pointer dereference occurred") || msg.contains("misaligned pointer dereference")) && raw_loc.starts_with(&repo) {
                 // rustc's debug-assertion UB checks fire with a non-unwinding panic, i.e. the process is
                 // about to abort. The dereference is in the crate under test, reached through its safe API:
                 // that is a memory-safety failure of the crate and no operation outcome any property allows.
                 if let Some(prop) = CURRENT_PROP.get() {
-                    let dir = format!("{}/replays/{}", crate::check::VERIF, prop);
+                    let dir = format!("{}/replays/{}", crate::check::verif_dir(), prop);
                     let _ = std::fs::create_dir_all(&dir);
                     let path = format!("{}/ub-check-abort.json", dir);
                     let body = format!(
@@ -56,7 +57,7 @@ pub fn install() {
                 // such a panic aborts the process: say what it was before it does
                 eprintln!("PANIC: {} @ {}:{}", msg, raw_loc, info.location().map(|l| l.line()).unwrap_or(0));
             }
-            let loc = info.location().map(|l| format!("{}:{}", l.file().trim_start_matches("/repo/"), l.line())).unwrap_or_default();
+            let loc = info.location().map(|l| format!("{}:{}", l.file().trim_start_matches(repo.as_str()), l.line())).unwrap_or_default();
             LAST.with(|l| *l.borrow_mut() = format!("{} @ {}", msg, loc));
         })
     }));
